@@ -392,7 +392,9 @@ fn gen_ser_ext(t: &mut Tape) -> MExt {
     match t.below(3) {
         0 => {
             let n = t.small(6);
-            MExt::Sni((0..n).map(|_| (if t.chance(200) { 0 } else { t.u8() }, t.small_blob(300))).collect())
+            // names: arbitrary bytes, or the shapes real peers (and misconfigured ones) send - DNS names, IPv4 / IPv6 literals, trailing
+            // dot, upper case, punycode (vmodel::HOST_NAMES)
+            MExt::Sni((0..n).map(|_| (if t.chance(200) { 0 } else { t.u8() }, if t.chance(110) { HOST_NAMES[t.below(HOST_NAMES.len())].as_bytes().to_vec() } else { t.small_blob(300) })).collect())
         }
         1 => MExt::MaxFragmentLength(t.u8()),
         _ => {
